@@ -448,8 +448,11 @@ class Recfile(object):
 
         if self.is_ascii:
             # for ascii, make sure the data are in native format.  This greatly
-            # simplifies the C code
-            to_native_inplace(dataview)
+            # simplifies the C code.  Convert a copy (only made when needed):
+            # the caller's array must not be byte swapped under its feet
+            dataview = dataview.astype(
+                dataview.dtype.newbyteorder("="), copy=False,
+            )
 
         self.robj.Write(dataview)
 
